@@ -145,6 +145,28 @@ Theorem C02_provider_own_keyset : forall verify p hint t m now c' alg,
 Proof. exact provider_own_keyset. Qed.
 Print Assumptions C02_provider_own_keyset.
 
+(* "kid-less ambiguity is reported, not guessed", at the level of the key sets:
+   the provider's key set answers only through the key that FindMatchingKey
+   designates among ALL published keys (a key whose non-empty kid equals the
+   header's, else the only possible key) ... *)
+Theorem C02_openid_designated : forall verify keys e p k,
+  openid_verify verify (Some keys) e p = Some k ->
+  In k keys /\ designated (se_kid e) (se_alg e) keys k = true /\ verify k e p = true.
+Proof. exact openid_designated. Qed.
+Print Assumptions C02_openid_designated.
+
+(* ... and with two or more possible keys and no exact match neither the
+   provider's key set nor the remote key set (from a download or from its cache)
+   accepts anything, whatever verifies *)
+Theorem C02_keyset_ambiguity_rejected : forall verify e p keys,
+  exact_keys (se_kid e) "sig" (se_alg e) keys = [] ->
+  2 <= List.length (loose_keys (se_kid e) "sig" (se_alg e) keys) ->
+  openid_verify verify (Some keys) e p = None
+  /\ (forall skip, remote_verify verify [] (Some keys) skip e p = None)
+  /\ (forall skip, remote_verify verify keys None skip e p = None).
+Proof. exact keyset_ambiguity_rejected. Qed.
+Print Assumptions C02_keyset_ambiguity_rejected.
+
 (* ONE instance, several tokens.  A remote key set whose endpoint keeps serving
    the list l answers every call of any sequence as a fresh key set would (cache
    still empty or already l): earlier verifications are no input of a later answer. *)
